@@ -185,8 +185,10 @@ class MultiTierCache(Entity):
                 if value is not None:
                     self._tier_hits[tier_idx] = self._tier_hits.get(tier_idx, 0) + 1
 
-                    # Promote to higher tier if applicable
-                    if tier_idx > 0:
+                    # Promote to higher tier if applicable.  Skip it when the
+                    # entry was invalidated (put/delete/invalidate) while the
+                    # tier lookup was in flight: the value read is outdated.
+                    if tier_idx > 0 and tier.contains_cached(key):
                         self._maybe_promote(key, value, tier_idx)
 
                     return value
@@ -217,12 +219,18 @@ class MultiTierCache(Entity):
         """
         self._writes += 1
 
+        # Drop cached copies before the write: a tier holding an older,
+        # not yet written-back copy must not write it back over the new value.
+        for tier in self._tiers:
+            if hasattr(tier, "invalidate"):
+                tier.invalidate(key)
+
         # Write to backing store
         yield from self._backing_store.put(key, value)
 
         # Update L1 cache (highest priority)
         if self._tiers:
-            # Invalidate from all tiers first
+            # Invalidate copies cached while the write was in flight
             for tier in self._tiers:
                 if hasattr(tier, "invalidate"):
                     tier.invalidate(key)
@@ -252,6 +260,12 @@ class MultiTierCache(Entity):
 
         # Remove from backing store
         store_existed = yield from self._backing_store.delete(key)
+
+        # A read that missed every tier while the delete was in flight may
+        # have re-cached the old value: drop it now that the key is gone.
+        for tier in self._tiers:
+            if hasattr(tier, "invalidate"):
+                tier.invalidate(key)
 
         # Clean up access tracking
         self._access_counts.pop(key, None)
